@@ -30,7 +30,7 @@ CLAIMS = {
          "BOM acceptance and the content of a heredoc under CRLF are Unspecified. Byte positions of ranges belong to C14.",
          "DESIGN.md section 4 C02"),
  'C17': ("systematic schedule exploration: preemption-bounded depth-first search under a controlled cooperative scheduler of the real code (sync operations and function entries as scheduling points via go build -overlay), plus a separate free-running -race pass",
-         "17 drivers (2-3 goroutines sharing one parsed expression or body, each with its own EvalContext and goroutine-specific contents): every schedule with at most k preemptions (k = 2 for the expression drivers, 1 for the 3-goroutine and body drivers in the quick tier; 3 / 2 thorough) is executed on the implementation; each goroutine's value and diagnostics must equal the result of the same call run alone, no deadlock or panic, no residue afterwards. Evidence reports schedules (states), scheduling decisions (transitions), maximum preemptions completed and replay divergences.",
+         "23 drivers (2-3 goroutines sharing one parsed expression or body, each with its own EvalContext and goroutine-specific contents): every schedule with at most k preemptions (k = 2 for the expression drivers, 1 for the 3-goroutine and body drivers in the quick tier; 3 / 2 thorough) is executed on the implementation; each goroutine's value and diagnostics must equal the result of the same call run alone, no deadlock or panic, no residue afterwards. Evidence reports schedules (states), scheduling decisions (transitions), maximum preemptions completed and replay divergences.",
          "A cooperative scheduler cannot see unsynchronised accesses or weak-memory effects: those are delegated to the free-running -race pass over the same driver bodies (auxiliary, not counted as model checking). For the body drivers Go map iteration order inside hcldec makes the sequence of scheduling points vary between executions; every executed schedule is still a real schedule within the bound. Instrumentation is generated at check time by overlay; if it does not build, the check falls back to lock points, then to the race pass only, and never raises an alarm for that.",
          "DESIGN.md section 4 C17"),
 
@@ -54,10 +54,10 @@ CLAIMS = {
          "All strings of length <= 3 over a 19-rune escape-relevant alphabet (+ 12 extra runes at length <= 2) in 7 positions, 41 numbers x 8 wrappers, typed nulls, depth-2 containers, a 29-key alphabet (keywords, non-identifiers) singly / in pairs / triples, label lists through NewBlock / AppendNewBlock / SetLabels read back three ways, and all traversals of <= 2-3 steps over 45 steps: generated source must parse, evaluate to the original after conversion to its type, and read back the same traversal steps and labels.",
          "Trusted: go-cty conversion/equality. One recorded finding: Block.Labels() of a constructed label '$${'.",
          "DESIGN.md section 4 C11"),
- 'C12': ("explicit-state search over all writer-API operation sequences up to depth 3/4 from 9 initial files (incl. caller-side slice mutations), each history replayed on fresh real hclwrite objects and compared step by step with a map/list reference model",
-         "53 (thorough 77) operations (SetAttributeValue/Raw/Traversal, Rename/RemoveAttribute, AppendNewBlock, AppendBlock incl. re-appending a removed block, RemoveBlock incl. a foreign block, SetType, SetLabels, AppendNewline, AppendUnstructuredTokens) on the root body and nested bodies, from empty / generated / parsed-with-comments / no-final-newline files: every sequence of length <= 3 (thorough: + all length-4 sequences of the core alphabet). After the operations: no panic, Bytes() parses, parsed structure equals the model, read accessors agree, untouched items keep their tokens and comments. Evidence reports states, transitions and traces.",
-         "The reference model (ref/refwriter) never imports hclwrite. One recorded finding: appending into a one-line block. Return values of edit operations that the documentation does not specify are not asserted.",
-         "DESIGN.md section 4 C12, Appendix D"),
+ 'C12': ("explicit-state search over writer-API operation sequences from 9 initial files (incl. caller-side slice mutations): all histories up to depth 3 without state merging, breadth-first search with heap-isomorphism state merging beyond (depth 5 quick / 7 thorough over a 21-operation sub-alphabet, depth 5 over the core alphabet in thorough); every history / transition executed on fresh real hclwrite objects and compared with a map/list reference model",
+         "64 (thorough 117) operations (SetAttributeValue/Raw/Traversal, Rename/RemoveAttribute, AppendNewBlock, AppendBlock incl. re-appending a removed block, RemoveBlock incl. a foreign block, SetType, SetLabels, AppendNewline, AppendUnstructuredTokens, caller-side overwrite/refill of handed-over token slices) on the root body and nested bodies, from empty / generated / parsed-with-comments / no-final-newline files: every sequence of length <= 3 replayed from scratch; deeper, a merged breadth-first search whose state key is the canonical form (up to address values, all aliasing included) of the private object graph of the real file, the caller's values, the complete model state and the model-to-real block binding: every transition is executed and checked for panics and documented return values, every new state gets the complete oracle. After the operations: no panic, Bytes() parses, parsed structure equals the model, read accessors agree, untouched items keep their tokens and comments, comments of the initial file survive unless their item was removed. Evidence reports states, transitions, traces and per-level frontier / transitions / new states of the merged search.",
+         "The reference model (ref/refwriter) never imports hclwrite. Merging assumes hclwrite does not depend on address values, map iteration order or slice elements beyond len. One recorded finding: appending into a one-line block. Return values of edit operations that the documentation does not specify are not asserted.",
+         "DESIGN.md section 4 C12, section 8 (as built), Appendix D"),
  'C14': ("bounded exhaustive enumeration of byte strings and single-byte edits through every scanning mode, RangeScanner and the JSON scanner, against a reference position counter; generated configurations with recorded construct spans for range fidelity",
          "All byte strings of length <= 4 over a 33-byte lexer alphabet (and every single-byte edit of 22 corpus configurations) through LexConfig/LexExpression/LexTemplate from two start positions: tiling, bytes = source slice, one EOF, lines/columns = reference counter (newlines + grapheme clusters) wherever the property demands it; RangeScanner with three split functions and three start positions; 63 expression forms x 8 wrappers x 9 contexts and block/label/body products with exact recorded spans for every range of an error-free parse (re-parse equivalence of every expression range); 1080 JSON documents x whitespace styles for node ranges.",
          "go-textseg grapheme segmentation is trusted. Lone CR, BOM, token boundaries inside a cluster and ill-formed UTF-8 columns are Unspecified (tiling is still demanded).",
